@@ -120,7 +120,10 @@ func combineMediaSegments(files []string, newTrackIDs []uint32) (*mp4.MediaSegme
 			return nil, fmt.Errorf("failed to get full samples: %w", err)
 		}
 		for _, fs := range fss {
-			_ = outFrag.AddFullSampleToTrack(fs, newTrackIDs[i])
+			err = outFrag.AddFullSampleToTrack(fs, newTrackIDs[i])
+			if err != nil {
+				return nil, fmt.Errorf("failed to add sample: %w", err)
+			}
 		}
 	}
 	return combinedSeg, nil
